@@ -29,7 +29,7 @@ META = {
         "thorough": "plain: all inputs <=4x3 x 20 tie-biased cost vectors + random up to 7x6; labelled: all inputs <=3x2 x all subset assignments over 2 families x 6 cost vectors + random up to 5/4/4",
     },
     "assumptions": ["explicit optimal set of the reference model (cap 3000 solutions; larger sets are skipped and counted)", "cost vectors in the coherent region as quantified"],
-    "timeout": {"quick": 900, "thorough": 7200},
+    "timeout": {"quick": 420, "thorough": 7200},
 }
 
 
